@@ -1,13 +1,14 @@
 #!/bin/bash
-# seed3.sh confirm <ID> <demo_pkg_dir> [test regex]  - confirm a round-3 seeded change in its scratch worktree /tmp/seed3/<ID>,
+# seedround.sh confirm <ID> <demo_pkg_dir> [test regex]  - confirm a round-3 seeded change in its scratch worktree /tmp/seed3/<ID>,
 #                                                      then store it as /verif/seeded/<ID>r3
-# seed3.sh run <ID>r3 <check>...                     - run quick checks against the stored seed on a scratch worktree (/repo untouched)
+# seedround.sh run <ID>r3 <check>...                     - run quick checks against the stored seed on a scratch worktree (/repo untouched)
 set -u
+R=${SEEDR:-3}   # seeding round: worktrees /tmp/seed$R/<ID>, deliveries /tmp/seed${R}_out/<ID>, stored as /verif/seeded/<ID>r$R
 export GOFLAGS=-mod=mod GOPROXY=off GOSUMDB=off
 cmd=$1; id=$2; shift 2
 case $cmd in
 confirm)
-  wt=/tmp/seed3/$id; out=/tmp/seed3_out/$id; demodir=$1; rx=${2:-.}
+  wt=/tmp/seed$R/$id; out=/tmp/seed${R}_out/$id; demodir=$1; rx=${2:-.}
   cd $wt || exit 2
   rm -f $wt/$demodir/zz_seed_demo_test.go
   git diff > $out/patch.confirm.diff
@@ -18,13 +19,13 @@ confirm)
   (cd client && go build ./... ) && echo "client builds"
   cp $out/demo_test.go $wt/$demodir/zz_seed_demo_test.go
   mod=$(echo $demodir | cut -d/ -f1)
-  echo "== demo WITH the change (expect FAIL)"; (cd $mod && timeout 600 go test -vet=off -count=1 -run "$rx" ./${demodir#*/}/ 2>&1 | grep -E "^(--- FAIL|FAIL|ok|PASS|panic)" | head -5)
+  echo "== demo WITH the change (expect FAIL)"; (cd $mod && timeout 600 go test ${DEMO_TAGS:+-tags $DEMO_TAGS} -vet=off -count=1 -run "$rx" ./${demodir#*/}/ 2>&1 | grep -E "^(--- FAIL|FAIL|ok|PASS|panic)" | head -5)
   git apply -R $out/patch.confirm.diff
-  echo "== demo WITHOUT the change (expect ok)"; (cd $mod && timeout 600 go test -vet=off -count=1 -run "$rx" ./${demodir#*/}/ 2>&1 | grep -E "^(--- FAIL|FAIL|ok|PASS|panic)" | head -5)
+  echo "== demo WITHOUT the change (expect ok)"; (cd $mod && timeout 600 go test ${DEMO_TAGS:+-tags $DEMO_TAGS} -vet=off -count=1 -run "$rx" ./${demodir#*/}/ 2>&1 | grep -E "^(--- FAIL|FAIL|ok|PASS|panic)" | head -5)
   git apply $out/patch.confirm.diff
   rm -f $wt/$demodir/zz_seed_demo_test.go
   git status --short
-  d=/verif/seeded/${id}r3; mkdir -p $d
+  d=/verif/seeded/${id}r$R; mkdir -p $d
   cp $out/patch.confirm.diff $d/patch.diff; cp $out/demo_test.go $d/demo_test.go; cp $out/meta.json $d/meta.json
   ;;
 run)
